@@ -44,7 +44,7 @@ func init() {
 		Exec:       runC10,
 		PanicClass: kit.PanicInRepo("state-panic"),
 		// reach probes every batch is expected to hit (listed in the evidence as probes_never_hit otherwise)
-		ExpectedProbes: []string{"commit-spans-more-than-3-disk-writes", "copy-checked-after-original-moved", "copy-of-copy", "copy-same-ops", "copy@block-iroot", "copy@commit", "copy@finalise", "copy@iroot", "copy@mid-transaction", "crash-with-some-but-not-all-new-roots-on-disk", "rebuilt-permuted", "rebuilt-regrouped"},
+		ExpectedProbes: []string{"commit-spans-more-than-3-disk-writes", "copy-checked-after-original-moved", "copy-of-copy", "copy-same-ops", "staking-record-focus-run", "copy@block-iroot", "copy@commit", "copy@finalise", "copy@iroot", "copy@mid-transaction", "crash-with-some-but-not-all-new-roots-on-disk", "rebuilt-permuted", "rebuilt-regrouped"},
 	})
 }
 
@@ -465,6 +465,12 @@ func runC10(r *kit.Run) {
 	c := r.C
 	env := newEnv()
 	m := &Mutator{r: r, ValidatorWeight: 1 + c.Intn("valweight", 3), AccountWeight: 1, AllowStakingRecords: true}
+	if c.Chance("staking-record-focus", 1, 4) {
+		// swarm: staking records are written often and to one or two keys (main line and copy)
+		m.StakeRecWeight = 6 + c.Intn("stakerec-weight", 6)
+		m.NStakeKeys = 1 + c.Intn("stakerec-keys", 2)
+		r.Probe("staking-record-focus-run")
+	}
 	m.BigCodes = c.Intn("bigcodes", 4) == 3
 	x := &c10Run{r: r, m: m, stacks: map[*state.StateDB][]int{}}
 	st := env.St
@@ -781,7 +787,8 @@ func (x *c10Run) differentOps(env *Env, st, cp *state.StateDB, cpObs Obs, where 
 			return false
 		}
 	}
-	m2 := &Mutator{r: r, height: x.m.height, wdNonce: 1000 + x.m.wdNonce, ValidatorWeight: 2, AccountWeight: 1, AllowStakingRecords: true, BigCodes: x.m.BigCodes}
+	m2 := &Mutator{r: r, height: x.m.height, wdNonce: 1000 + x.m.wdNonce, ValidatorWeight: 2, AccountWeight: 1, AllowStakingRecords: true, BigCodes: x.m.BigCodes,
+		StakeRecWeight: x.m.StakeRecWeight, NStakeKeys: x.m.NStakeKeys}
 	n := 1 + c.Intn("copy-ops", 8)
 	for i := 0; i < n; i++ {
 		r.Steps++
